@@ -121,7 +121,7 @@ func checkC12(P *Prog, r *Result) {
 			})
 		}
 	}
-	r.floor("C12/callback-arg", 16)
+	r.floor("C12/callback-arg", 8)
 
 	// ---- primitive-testfunc-gets-value ----
 	wrapper := P.fn("zog.customTestBackwardsCompatWrapper")
